@@ -96,6 +96,22 @@ Definition bmon_step (m : bmon) (e : op * obs) : bmon :=
 Definition state_ok (k : nat) (tr : list (op * obs)) : bool :=
   b_good (fold_left bmon_step tr (mkBmon 0 None false (repeat 0%N k) (repeat (None, false) k) true)).
 
+(* C13: the published id (probe) moves only with a successful send - by a strict increase -
+   or with the test hook that jumps close to u64::MAX; in particular a REJECTED send (closed
+   channel, ids exhausted) leaves it alone, so the stored state is never re-labelled. *)
+Definition id_step (acc : N * bool) (e : op * obs) : N * bool :=
+  let '(id, ok) := acc in
+  let '(o, ob) := e in
+  let id' := nth 1 (o_probe ob) 0%N in
+  match o with
+  | Teardown => (id, ok)
+  | SetId _ => (id', ok)
+  | Send _ => if res_is R_OK ob then (id', ok && N.ltb id id') else (id', ok && N.eqb id' id)
+  | _ => (id', ok && N.eqb id' id)
+  end.
+
+Definition ids_stable (tr : list (op * obs)) : bool := snd (fold_left id_step tr (0%N, true)).
+
 (* C11 (state broadcast): no implicit close while a sender and a receiver handle are alive *)
 Record hmon := mkHmon { h_senders : nat; h_receivers : nat; h_explicit : bool; h_good : bool }.
 
@@ -135,7 +151,7 @@ Definition monitor (which : N) (cfg : list N) (tr : list (list N * obs)) : bool 
   match cfg with
   | k :: _ =>
       match which with
-      | 13%N => state_ok (N.to_nat k) (dec_trace tr)
+      | 13%N => state_ok (N.to_nat k) (dec_trace tr) && ids_stable (dec_trace tr)
       | 11%N => handles_ok tr
       | _ => true
       end
